@@ -313,7 +313,58 @@ func (h *harness) bubble() (res result) {
 			}
 		}
 	}
-	res.trace = ctl.Run(start, c.Sched, observe, maxSteps)
+	// schedulable clock advances (see Case.Adv)
+	for k := 1; k <= c.Adv && k <= 2; k++ {
+		ctl.Event(fmt.Sprintf("advance:%d", k), -1, func() {
+			h.mu.Lock()
+			if h.closeStartT > 0 && h.closeDoneT == 0 {
+				h.advDuringClose = true
+			}
+			h.mu.Unlock()
+			ctl.Log("clock-advance", "", 0, (closeTimeout + time.Second).String())
+			time.Sleep(closeTimeout + time.Second)
+		})
+	}
+	pendingAdv := 1
+	ctl.Offer = func(ev sched.Parked, gates []sched.Parked) bool {
+		if !strings.HasPrefix(ev.Key, "advance:") {
+			return true
+		}
+		if ev.Key != fmt.Sprintf("advance:%d", pendingAdv) {
+			return false // one at a time, in order
+		}
+		slow := false
+		for _, g := range gates {
+			if strings.HasPrefix(g.Key, "try:") {
+				return false
+			}
+			if strings.HasPrefix(g.Key, "load:") || strings.HasPrefix(g.Key, "close:") {
+				slow = true
+			}
+		}
+		return slow
+	}
+	observeAll := func(v sched.View) {
+		if strings.HasPrefix(v.ChosenKey, "advance:") {
+			pendingAdv++
+			closing := false
+			for k, st := range v.Ops {
+				if st.Started && !st.Done && c.Ops[k].K == kClose {
+					closing = true
+				}
+			}
+			for _, p := range v.Parked {
+				if closing && strings.HasPrefix(p.Key, "load:") {
+					h.classes["load-outlasts-close-deadline"] = true
+				}
+				if closing && strings.HasPrefix(p.Key, "close:") {
+					h.classes["object-close-outlasts-close-deadline"] = true
+				}
+			}
+		}
+		observe(v)
+	}
+	res.trace = ctl.Run(start, c.Sched, observeAll, maxSteps)
 	ctl.ReleaseAll(100)
 
 	// "no operation blocks for ever": every gate has been opened; whatever is still running
@@ -373,6 +424,12 @@ func (h *harness) bubble() (res result) {
 		if h.closeDoneT > 0 {
 			for _, x := range h.insts {
 				if x.liveT > 0 && x.closedT == 0 {
+					if h.advDuringClose && x.gaveUp {
+						// documented give-up path (closeTimeout): the deadline elapsed while Close was
+						// running and this instance's TryClose, in flight under another closer, said busy
+						h.classes["close-gave-up-on-busy-tryclose(excused)"] = true
+						continue
+					}
 					h.violationLocked("instance %s (live since t%d) is left open although the cache has shut down (Close returned at t%d)", x.name(), x.liveT, h.closeDoneT)
 				}
 			}
@@ -452,7 +509,7 @@ func (h *harness) outcome(trace []sched.Step, nonTrivial bool) vstat.Outcome {
 	for _, s := range trace {
 		keys = append(keys, s.Key)
 	}
-	out.Sig = vstat.HashJSON([]any{h.c.Pre, h.c.Age, h.c.Ops, h.c.Loads, h.c.Try, h.c.CloseErr, keys})
+	out.Sig = vstat.HashJSON([]any{h.c.Pre, h.c.Age, h.c.Ops, h.c.Loads, h.c.Try, h.c.CloseErr, h.c.Adv, keys})
 	out.NonTrivial = nonTrivial
 	for k := range h.classes {
 		out.Classes = append(out.Classes, k)
@@ -480,7 +537,7 @@ func (h *harness) report(trace []sched.Step) string {
 
 func (h *harness) reportLocked(trace []sched.Step) string {
 	var b strings.Builder
-	fmt.Fprintf(&b, "prelude=%v age=%v loads=%v try=%v\n", h.c.Pre, h.c.Age, h.c.Loads, h.c.Try)
+	fmt.Fprintf(&b, "prelude=%v age=%v loads=%v try=%v adv=%d\n", h.c.Pre, h.c.Age, h.c.Loads, h.c.Try, h.c.Adv)
 	ops := h.ctl.Ops()
 	for i, op := range h.c.Ops {
 		st := "not started"
